@@ -64,7 +64,8 @@ type HarnessResult struct {
 	Witnesses       []Witness           `json:"witnesses,omitempty"`
 	Solver          string              `json:"solver"`
 	witSigs         map[string]bool
-	violKeys        map[string]bool
+	violCount       map[string]int
+	newViolations   int // violations that are not split out as known findings (count toward the stop limit)
 }
 
 type SolverStatsJSON struct {
@@ -91,10 +92,17 @@ type PathSample struct {
 }
 
 func (r *HarnessResult) addViolation(v Violation) {
-	if r.violKeys == nil {
-		r.violKeys = map[string]bool{}
+	if r.violCount == nil {
+		r.violCount = map[string]int{}
+	}
+	r.violCount[v.Label]++
+	if r.violCount[v.Label] > 3 {
+		return // keep at most three counterexamples per assertion label
 	}
 	r.Violations = append(r.Violations, v)
+	if !strings.Contains(v.Label, "#KF-") {
+		r.newViolations++
+	}
 }
 
 func (r *HarnessResult) markAssertReached(label string) {
@@ -265,10 +273,10 @@ func runHarness(prog *ssa.Program, fn *ssa.Function, cfg *HarnessCfg) *HarnessRe
 				}
 				cpuTokens <- struct{}{}
 				part.Paths++
-				nviol := len(part.Violations)
+				nviol := part.newViolations
 				alts := in.runPath(fn, prefix, &baseCfg, stubSeen[w], boundSeen[w])
 				<-cpuTokens
-				atomic.AddInt64(&violCount, int64(len(part.Violations)-nviol))
+				atomic.AddInt64(&violCount, int64(part.newViolations-nviol))
 				q.done(alts)
 				if cfg.Verbose {
 					printMu.Lock()
